@@ -211,7 +211,7 @@ func RunLive(s *kernel.Sim, o LiveOpts) *World {
 				case 2:
 					out.Kind = OutHang
 				case 3:
-					out.Latency = time.Duration(t.Range(1, 5000)) * time.Millisecond
+					out.Latency = time.Duration(t.Range(1, 5000))*time.Millisecond + 500*time.Microsecond
 				case 4:
 					out.ChangeBefore = true
 				case 5:
@@ -616,6 +616,7 @@ func (l *live) refresh() {
 	d := time.Duration(0)
 	if l.t.Bool(1, 3) {
 		d = []time.Duration{time.Millisecond, time.Second, 10 * time.Second}[l.t.Choice(3)]
+		d += 333 * time.Microsecond // never at the same instant as a scripted latency
 	}
 	ctx, cancel := w.Ctx(d)
 	l.refreshSeq++
